@@ -7,13 +7,16 @@
                              bytes at offset off with off + len > L gets L - off bytes out, then EFBIG
      InjFail call kind tgt g every operation of that kind on that file class during the call fails
                              (handle closed behind the buffer's back; directory moved away; file
-                             pre-removed: g = 1 "already gone") *)
+                             pre-removed: g = 1 "already gone")
+     InjFailAt call kind tgt pos g   the same for the one operation at position pos (the Remove of the
+                             pos-th entry of FILES_TMPNAMES: exactly that upload was pre-removed) *)
 From Verif Require Import Base Faults.
 Local Open Scope nat_scope.
 
 Inductive inj :=
   | InjLimit (call : nat) (tgt : target) (limit : nat)
-  | InjFail (call : nat) (kind : opkind) (tgt : target) (gone : nat).
+  | InjFail (call : nat) (kind : opkind) (tgt : target) (gone : nat)
+  | InjFailAt (call : nat) (kind : opkind) (tgt : target) (pos : nat) (gone : nat).
 
 Definition inj_hit (o : opinfo) (i : inj) : option nat :=
   match i with
@@ -23,6 +26,9 @@ Definition inj_hit (o : opinfo) (i : inj) : option nat :=
     then Some (L - oi_off o) else None
   | InjFail c k t g =>
     if (oi_call o =? c) && opkind_eqb (oi_kind o) k && target_eqb (oi_tgt o) t then Some g else None
+  | InjFailAt c k t p g =>
+    if (oi_call o =? c) && opkind_eqb (oi_kind o) k && target_eqb (oi_tgt o) t && (oi_off o =? p)
+    then Some g else None
   end.
 
 Fixpoint oracle_of (l : list inj) (o : opinfo) : option nat :=
